@@ -52,6 +52,54 @@ MIXED = [0, '0', '', 1, '1', ' ', 'x']
 UNI = ['\xe4', 'Ωmega', '日本語', '\U0001f600', 'é', '‮abc', '\xdf']
 URLISH = ['a b', 'c+d', 'e%2Ff', 'g&h=i', 'j#k', 'l?m', "n'o;p"]
 SCHEMES = ('ascii', 'same', 'int', 'mixed', 'long', 'uni', 'urlish', 'oid', 'py')
+# "any node ids": the rest of the value space of str -- code points that are legal in a Python
+# str but that a serialiser may refuse or rewrite: unpaired surrogates (os.fsdecode() makes them
+# from undecodable file names), control characters, separators, non-characters, text that looks
+# like an escape sequence.  No < > " [ ] (the page parser needs them, see ASCII_ALPHA) and never
+# a high surrogate directly followed by a low one (see has_pair).
+SURR = ['\ud800', 'file\udcff.txt', '\udc00\ud800', '\udbff\udbff', 'a\ud83d', '\ude00b',
+        '\U0001f600\ud83d']
+CTRL = ['\x00', 'a\nb\r\n', '\t\x0b\x0c', '\x7f\x80\x9f', '\u2028\u2029\x85',
+        '\ufeff\ufffe\uffff\U0010ffff', "\\b'\\u0041\\ud800\\"]
+SCHEMES_WILD = ('surr', 'ctrl')
+
+_PAIR = re.compile('[\ud800-\udbff][\udc00-\udfff]')
+_LONE = re.compile('[\ud800-\udfff]')
+_CTRL = re.compile('[\x00-\x1f\x7f-\x9f\u2028\u2029\ufeff\ufffe\uffff]')
+
+
+def has_pair(s):
+    """A high surrogate directly followed by a low surrogate inside ONE id.  JSON text spells
+    that exactly like the astral character the two would form in UTF-16, so it is kept out of
+    the general workload and examined by a dedicated probe (checks/c20.py pair_probe)."""
+    return isinstance(s, str) and _PAIR.search(s) is not None
+
+
+def has_lone(s):
+    return isinstance(s, str) and _LONE.search(s) is not None
+
+
+def has_ctrl(s):
+    return isinstance(s, str) and _CTRL.search(s) is not None
+
+
+def ids_of(state):
+    """Every id (scalar) of a nested state / path, depth first."""
+    if isinstance(state, (list, tuple)):
+        for x in state:
+            yield from ids_of(x)
+    else:
+        yield state
+
+
+def merge_pairs(x):
+    """The same value with every adjacent high+low surrogate read as one astral character
+    (what UTF-16 and JSON text do); unpaired surrogates stay."""
+    if isinstance(x, (list, tuple)):
+        return [merge_pairs(y) for y in x]
+    if isinstance(x, str) and _PAIR.search(x):
+        return x.encode('utf-16-le', 'surrogatepass').decode('utf-16-le', 'surrogatepass')
+    return x
 
 
 def _noise(idx, n):
@@ -79,6 +127,10 @@ def scheme_id(scheme, idx, k, d):
         return ['v', UNI[k % 7] + ('' if d < 2 else str(d))]
     if scheme == 'urlish':
         return ['v', URLISH[k % 7] + ('/%d' % d)]
+    if scheme == 'surr':
+        return ['v', SURR[(k + d) % 7] + ('' if d < 2 else str(d))]
+    if scheme == 'ctrl':
+        return ['v', CTRL[(k + d) % 7] + ('' if d < 2 else str(d))]
     if scheme == 'oid':
         return ['oid', idx + 1]
     if scheme == 'py':
@@ -134,14 +186,39 @@ def random_id(rng, style):
         return ''.join(out)
     if style == 'short':
         return ''.join(rng.choice('abc') for _ in range(rng.randint(0, 2)))
+    if style in ('wild', 'surr', 'ctrl'):
+        n = rng.choice([1, 1, 2, 3, 5, 20, 60])
+        out = ''
+        while len(out) < n:
+            if style == 'wild':
+                r = rng.random()
+                c = chr(rng.randint(0, 0x10ffff) if r < 0.4 else rng.randint(0, 0xffff) if r < 0.7
+                        else rng.randint(0xd800, 0xdfff) if r < 0.8 else rng.randint(0, 0xa0))
+            elif style == 'surr':
+                r = rng.random()
+                c = (chr(rng.randint(0xd800, 0xdfff)) if r < 0.5 else rng.choice(ASCII_ALPHA) if r < 0.8
+                     else chr(rng.randint(0x10000, 0x10ffff)))
+            else:
+                c = rng.choice(WILD_CTRL) if rng.random() < 0.6 else rng.choice(ASCII_ALPHA)
+            if c in '<>"[]' or has_pair(out[-1:] + c):
+                continue
+            out += c
+        return out
     raise ValueError(style)
 
 
-def random_spec(rng, nmax=60):
-    """A random tree recipe with up to nmax nodes, long / non-ASCII / int ids."""
+WILD_CTRL = (''.join(map(chr, range(0x20))) + ''.join(map(chr, range(0x7f, 0xa1))) +
+             '\u2028\u2029\ufeff\ufffe\uffff\ufffd\u200b\u200e\u202e\U0010ffff\U0001fffe\\')
+WILD_STYLES = [['wild'], ['surr'], ['ctrl'], ['wild', 'surr', 'ctrl'], ['surr', 'short', 'int'],
+               ['wild', 'long', 'uni'], ['ctrl', 'uni']]
+
+
+def random_spec(rng, nmax=60, pools=None):
+    """A random tree recipe with up to nmax nodes, long / non-ASCII / int ids (pools: other
+    lists of id styles to choose from, e.g. WILD_STYLES)."""
     n = rng.randint(2, nmax)
-    styles = rng.choice([['long'], ['uni'], ['long', 'uni'], ['long', 'uni', 'int', 'short'],
-                         ['short', 'int'], ['oid'], ['py'], ['uni', 'short']])
+    styles = rng.choice(pools or [['long'], ['uni'], ['long', 'uni'], ['long', 'uni', 'int', 'short'],
+                                  ['short', 'int'], ['oid'], ['py'], ['uni', 'short']])
     deep = rng.random()
     nodes = [{'t': 0, 'ch': [], 'rank': 0}]
     depth = {0: 0}
@@ -378,7 +455,9 @@ def indep_raw(value):
 def indep_decode(value):
     raw = indep_raw(value)
     try:
-        text = zlib.decompress(raw).decode('utf-8')
+        # surrogatepass: a form that writes an unpaired surrogate of an id as its three UTF-8-style
+        # bytes is as good as one that writes a JSON escape; what is judged is the decoded state
+        text = zlib.decompress(raw).decode('utf-8', 'surrogatepass')
     except Exception as e:
         raise FormError('not a zlib stream of UTF-8 text: %s' % e)
     try:
